@@ -338,3 +338,27 @@ func (txMap *txListBySenderMap) removeSender(sender string) (removed bool)
   ensures  sender-count-by-delta: txMap.counter.value == old(txMap.counter.value) - (removed ? 1 : 0)
   assigns  txMap.counter, txMap.backingMap.mutex
 @*/
+
+/*@
+// [C25] sweeping: the list of sweepable senders is consumed by one sweep - after sweepSweepable it is empty, so a sender swept once
+// is not evicted again (with the hashes of its OLD list) by the next sweep after it re-added transactions
+func (cache *TxCache) initSweepable()
+  ensures  emptied: len(cache.sweepingListOfSenders) == 0 && fresh(cache.sweepingListOfSenders)
+  assigns  cache.sweepingListOfSenders
+
+func (cache *TxCache) monitorSweepingStart() (r *core.StopWatch)
+  trusted
+  assigns nothing
+
+func (cache *TxCache) monitorSweepingEnd(numTxs uint32, numSenders uint32, stopWatch *core.StopWatch)
+  trusted
+  assigns nothing
+
+// removes the given senders and their transactions from both indexes (not under contract here: no frame, callers lose the heap)
+func (cache *TxCache) evictSendersAndTheirTxs(listsToEvict []*txListForSender) (nTxs uint32, nSenders uint32)
+  trusted
+
+func (cache *TxCache) sweepSweepable()
+  ensures  list-consumed: len(cache.sweepingListOfSenders) == 0
+  ensures  lock-released: !held(cache.sweepingMutex) && !heldR(cache.sweepingMutex)
+@*/
